@@ -5,7 +5,6 @@ package models
 // covering every UTF-8 lead-byte class and boundary continuation bytes.
 
 import (
-	"regexp"
 	"bytes"
 	"encoding/json"
 	"math"
@@ -201,25 +200,4 @@ func TestMinMax(t *testing.T) {
 			}
 		}
 	}
-}
-
-
-func TestRegexpNewlineModel(t *testing.T) {
-	re := regexp.MustCompile(`\r\n|\r|\n`)
-	alpha := []string{"a", "\r", "\n", "\xc3", "\xa9", "<", "\x00", "\xff"}
-	var rec func(prefix string, n int)
-	rec = func(prefix string, n int) {
-		for _, repl := range []string{"<br>", "", "x"} {
-			if a, b := re.ReplaceAllString(prefix, repl), verifModelRegexp_ReplaceAllString(re.String(), prefix, repl); a != b {
-				t.Fatalf("ReplaceAllString(%q, %q): %q vs %q", prefix, repl, a, b)
-			}
-		}
-		if n == 0 {
-			return
-		}
-		for _, c := range alpha {
-			rec(prefix+c, n-1)
-		}
-	}
-	rec("", 5)
 }
